@@ -461,3 +461,58 @@ func genKeyCache(r *vlib.R) string {
 	}
 	return "keycache run " + strings.Join(evs, ",")
 }
+
+// ------------------------------------------------------------------ the validity window at its edges
+
+// window check now=<unix> inc=<uint32> exp=<uint32>
+//
+//	dns.RRSIG.ValidityPeriod — the one window test of the tree (verify.go hands it the zero time = the real clock,
+//	see shape_window_checked_on_real_clock) — evaluated at a CHOSEN instant, so that the first and last valid second
+//	and the seconds just outside are hit exactly, also where the 32-bit fields wrap.
+func execWindow(f []string) vlib.Res {
+	m := kv(f)
+	now, inc, exp := vlib.AtoI64(m["now"]), vlib.AtoI64(m["inc"]), vlib.AtoI64(m["exp"])
+	sig := &dns.RRSIG{Inception: uint32(inc), Expiration: uint32(exp)}
+	got := sig.ValidityPeriod(time.Unix(now, 0))
+	or := "ok"
+	tag := "wrap"
+	near := func(x int64) bool { d := x - now; return d < 1<<30 && d > -(1<<30) }
+	if near(inc) && near(exp) {
+		tag = "plain"
+		want := inc <= now && now <= exp
+		switch {
+		case got && !want:
+			or = fail("window/signature-accepted-outside-its-validity-period", "now=%d inc=%d exp=%d", now, inc, exp)
+		case !got && want:
+			or = fail("window/signature-refused-inside-its-validity-period", "now=%d inc=%d exp=%d", now, inc, exp)
+		}
+	}
+	edge := "far"
+	for _, d := range []int64{now - inc, now - exp} {
+		if d >= -1 && d <= 1 {
+			edge = "edge"
+		}
+	}
+	return vlib.Res{Impl: "valid=" + vlib.B(got), Oracle: or, Tags: "nt,w:" + tag + ",w:" + edge}
+}
+
+func genWindow(r *vlib.R) string {
+	now := vlib.Pick(r, []int64{1790000000, 1790000000, time.Now().Unix(), 2147483647, 2147483648, 2147483650, 4294967290, 4294967296, 4294967300, 5000000000, 100, 0})
+	now += int64(r.Intn(5)) - 2
+	if now < 0 {
+		now = 0
+	}
+	off := func() int64 {
+		return vlib.Pick(r, []int64{-2, -1, 0, 1, 2, -3600, 3600, -86400, 86400 * 30, -(1<<31 - 1), 1<<31 - 1, -(1 << 31), 1 << 31, -(1<<31 + 1), 1<<31 + 1, 1 << 30, -(1 << 30)})
+	}
+	a, b := off(), off()
+	if r.Chance(2, 3) { // an ordinary window around / beside now, one edge at distance -1 / 0 / +1
+		a, b = vlib.Pick(r, []int64{-3600, -1, 0, 1, -86400}), vlib.Pick(r, []int64{3600, 1, 0, -1, 86400})
+	}
+	u32 := func(x int64) int64 { return int64(uint32(x)) }
+	inc, exp := now+a, now+b
+	if inc < 0 || inc >= 1<<32 || exp < 0 || exp >= 1<<32 {
+		inc, exp = u32(inc), u32(exp) // the fields are 32 bits wide: the value travels modulo 2^32
+	}
+	return fmt.Sprintf("window check now=%d inc=%d exp=%d", now, inc, exp)
+}
